@@ -38,7 +38,7 @@ def run(chk):
                 'state x XDG_DATA_HOME set/unset/empty x HOME set/unset x file location x --trash-dir x both fallback '
                 'switches) with one trash-put per edge; the real run must put the entry into the directory ChosenDir '
                 'prescribes; created directories must be 0700 under umask 022/000/077; the payload must arrive by '
-                'exactly one rename unless both fallback switches are on; stage two-volumes: two arguments on different volumes in one invocation; stage td-through-link: --trash-dir spelled L/../name through a '
+                'exactly one rename unless both fallback switches are on; stage populated-directories: trash directories that already exist and hold entries, orphans, strays (the choice does not depend on them); stage two-volumes: two arguments on different volumes in one invocation; stage td-through-link: --trash-dir spelled L/../name through a '
                 'symlink on another volume (only where the entry went is judged there); non-trivial = trashed or had to fail')
     chk.assumptions += common.ASSUME
     common.mc(chk, properties=['PutVolumeOK'])
@@ -56,6 +56,13 @@ def run(chk):
                                              g['lab']['opts']['hf'], g['lab']['opts']['hfenv']),
                             opts_fn=lambda g, seed: {'shim': {'trace': True}, 'td_spelling': 'linkdotdotx', 'gate_only': True},
                             judge=one_rename_judge, seeds_per_group=1)
+    # the choice does not depend on what earlier commands left behind: trash directories that already exist and hold entries
+    # ($topdir/.Trash-$uid populated from the time before $topdir/.Trash existed, .Trash/$uid still absent or empty ...)
+    g3 = stages.generate(chk, 'PutBusy', 'Init_PutBusy', 'Next_PutBusy', {'MaxObj': 8, 'MaxClock': 3, 'DayTicks': 3, 'MaxDepth': 1, 'GenLevel': 1})
+    stages.transition_tests(chk, 'populated-directories', g3, sample=900 if quick else None, per_stratum=2,
+                            strat=lambda g: (json_key(g['cfg']), tuple(sorted(g['pre']['tex'])), g['lab']['args'][0].get('r'),
+                                             bool(g['pre']['items'])),
+                            opts_fn=opts, judge=one_rename_judge, seeds_per_group=1)
     # several arguments on DIFFERENT volumes in one invocation: each goes to the directory of its own volume (nothing decided
     # for one argument may be reused for the next)
     common.gen_tt(chk, 'two-volumes', 'Init_PutList', 'Next_Put2', 4, 700,
